@@ -973,8 +973,18 @@ static int send_frame(const struct websocket *s, uint8_t *payload, size_t length
 	size_t length_comp = length;
 	uint8_t rsv = 0x00;
 	if (s->extension_compression.accepted && (type < WS_CLOSE_FRAME)) {
-		payload_comp = malloc(length * 2);
-		length_comp = websocket_compress(s, payload_comp, payload, length);
+		size_t size_comp = websocket_compress_bound(s, length);
+		payload_comp = malloc(size_comp);
+		if (unlikely(payload_comp == NULL)) {
+			log_err("Not enough memory to compress a websocket frame!");
+			return -1;
+		}
+		int ret_comp = websocket_compress_bounded(s, payload_comp, size_comp, payload, length);
+		if (unlikely(ret_comp < 0)) {
+			free(payload_comp);
+			return -1;
+		}
+		length_comp = (size_t)ret_comp;
 		rsv = 0x40;
 		payload_ptr = payload_comp;
 	}
